@@ -44,6 +44,10 @@ check("C14", "exploration",
       BASE_NOTE + " SIGPIPE is not modelled by the simulated kernel, so the early-exiting-reader cases check liveness and prefix integrity only.",
       "deterministic simulation: seeded scheduler + short-I/O/preemption/signal fault injection, exact byte-stream oracle", "DESIGN.md section 4 C14")
 
+check("C18", "exploration",
+      "Generated scripts (commands mixed with data lines read from the same input, alias/option changes affecting later lines, multi-line constructs, here-documents, planted syntax errors, a final consumer of the remaining input) are fed as a regular file, through a pipe written by a simulated feeder process in seeded chunk sizes under seeded schedules with preemption at every read, as a -c string and as a command file; oracles: trace/status equality with the generator's expectation in every variant and chunking, and at every `tell` probe the input has been consumed exactly to the end of the running command's last line (lseek offset for files; bytes read from fd 0 according to kernel events for pipes).",
+      BASE_NOTE, "deterministic simulation: simulated feeder process with seeded chunking + seeded scheduler; offset invariant from kernel read events", "DESIGN.md section 4 C18")
+
 import os
 selected = os.environ.get("MANIFEST_ONLY")
 manifest = {
